@@ -102,6 +102,30 @@ Proof.
   - apply (Hs w Hold id Hid).
 Qed.
 
+(* sharing: the variables of the result are variables of s under another key *)
+Lemma fold_put_in mv : forall vars w, In w (fold_left put_var mv vars) -> In w mv \/ In w vars.
+Proof.
+  induction mv as [|x t IH]; intros vars w H; simpl in H; [right; exact H|].
+  destruct (IH _ _ H) as [Hm|Hv]; [left; right; exact Hm|]. destruct (put_var_in _ _ _ Hv) as [->|Hold]; [left; left; reflexivity | right; exact Hold].
+Qed.
+Lemma moved_vars_src m s mv : moved_vars m s = Ok mv -> forall w, In w mv -> exists v, In v (dvars s) /\ vax w = vax v.
+Proof.
+  unfold moved_vars. generalize (filter (fun p => negb (String.eqb (fst p) (snd p))) m). intros l. revert mv.
+  induction l as [|p t IH]; intros mv H w Hw; simpl in H; [injection H as <-; destruct Hw|].
+  destruct (find_var s (fst p)) as [v|] eqn:Ef; simpl in H; [|discriminate].
+  destruct (mapM _ t) as [r|] eqn:Er; simpl in H; [|discriminate]. injection H as <-.
+  destruct Hw as [<-|Hw]; [|eapply IH; [reflexivity | exact Hw]].
+  exists v. split; [|reflexivity]. unfold find_var in Ef. apply find_some in Ef. exact (proj1 Ef).
+Qed.
+Theorem rename_keys_shared m s : Shared s -> Shared (fst (ds_rename_keys m s)).
+Proof.
+  intros Hs. unfold ds_rename_keys. destruct (negb _); [exact Hs|]. destruct (moved_vars m s) as [mv|] eqn:Em; [|exact Hs].
+  simpl. intros w Hw id Hid. simpl in Hw. destruct (fold_put_in _ _ _ Hw) as [Hm|Hr].
+  - destruct (moved_vars_src _ _ _ Em w Hm) as [v [Hv E]]. rewrite E in Hid. exact (Hs v Hv id Hid).
+  - apply filter_In in Hr. exact (Hs w (proj1 Hr) id Hid).
+Qed.
+
+
 (* one step of ANY operation of the alphabet - successful or failing - preserves sharing *)
 Theorem step_shared s o : Shared s -> Shared (fst (ds_step s o)).
 Proof.
@@ -121,6 +145,7 @@ Proof.
     destruct name; [apply rename_id_shared; apply shared_with_heap; exact Hs | apply shared_with_heap; exact Hs].
   - apply replace_axis_shared; exact Hs.
   - apply rename_key_shared; exact Hs.
+  - apply rename_keys_shared; exact Hs.
   - unfold ds_init. destruct (align _ _ _ _ _); [|apply shared_empty].
     apply (fold_rename_shared (fun st p => ds_setitem (fst p) (snd p) st)); [intros; apply setitem_shared; assumption | apply shared_empty].
 Qed.
@@ -557,6 +582,92 @@ Proof.
     unfold ds_keys. cbn [dvars]. apply NoDup_map_filter. apply put_var_keys. exact Hkeys.
 Qed.
 
+(* ------------------------------------------------------------------ rename_keys with several keys at once *)
+Lemma put_var_fresh vars v : ~ In (vkey v) (map vkey vars) -> put_var vars v = vars ++ [v].
+Proof.
+  induction vars as [|x t IH]; intros H; simpl; [reflexivity|].
+  destruct (String.eqb_spec (vkey x) (vkey v)) as [E|NE]; [exfalso; apply H; left; exact E|].
+  f_equal. apply IH. intros Hin. apply H. right. exact Hin.
+Qed.
+Lemma fold_put_fresh mv : forall vars,
+  NoDup (map vkey mv) -> (forall w, In w mv -> ~ In (vkey w) (map vkey vars)) ->
+  fold_left put_var mv vars = vars ++ mv.
+Proof.
+  induction mv as [|x t IH]; intros vars Hnd Hfr; simpl; [rewrite app_nil_r; reflexivity|].
+  inversion Hnd as [|? ? Hx Ht]; subst.
+  rewrite put_var_fresh by (apply Hfr; left; reflexivity).
+  rewrite IH; [rewrite <- app_assoc; reflexivity | exact Ht |].
+  intros w Hw Hin. rewrite map_app in Hin. apply in_app_or in Hin. destruct Hin as [Hin|[E|[]]].
+  - apply (Hfr w (or_intror Hw)). exact Hin.
+  - apply Hx. simpl in E. rewrite E. apply in_map. exact Hw.
+Qed.
+
+(* the really renaming pairs *)
+Definition moving (m : list (string * string)) : list (string * string) := filter (fun p => negb (String.eqb (fst p) (snd p))) m.
+(* side condition of the invariant: old keys given once, new keys distinct and not among the keys that stay *)
+Definition renkeys_ok (s : dset) (m : list (string * string)) : Prop :=
+  NoDup (map fst (moving m)) /\ NoDup (map snd (moving m)) /\
+  forall n, In n (map snd (moving m)) -> In n (ds_keys s) -> In n (map fst (moving m)).
+
+Lemma moved_vars_keys m s mv : moved_vars m s = Ok mv -> map vkey mv = map snd (moving m).
+Proof.
+  unfold moved_vars, moving. generalize (filter (fun p => negb (String.eqb (fst p) (snd p))) m). intros l. revert mv.
+  induction l as [|p t IH]; intros mv H; simpl in H; [injection H as <-; reflexivity|].
+  destruct (find_var s (fst p)) as [v|]; simpl in H; [|discriminate].
+  destruct (mapM _ t) as [r|] eqn:Er; simpl in H; [|discriminate]. injection H as <-. simpl. f_equal. apply IH. reflexivity.
+Qed.
+Lemma moved_vars_has m s mv : moved_vars m s = Ok mv ->
+  forall o v, In o (map fst (moving m)) -> find_var s o = Some v -> exists w, In w mv /\ vax w = vax v.
+Proof.
+  unfold moved_vars, moving. generalize (filter (fun p => negb (String.eqb (fst p) (snd p))) m). intros l. revert mv.
+  induction l as [|p t IH]; intros mv H o v Ho Hf; simpl in H; [destruct Ho|].
+  destruct (find_var s (fst p)) as [v0|] eqn:Ef; simpl in H; [|discriminate].
+  destruct (mapM _ t) as [r|] eqn:Er; simpl in H; [|discriminate]. injection H as <-.
+  destruct Ho as [E|Ho].
+  - simpl in E. subst o. rewrite Ef in Hf. injection Hf as <-. exists (rekey v0 (snd p)). split; [left; reflexivity | reflexivity].
+  - destruct (IH r eq_refl o v Ho Hf) as [w [Hw E]]. exists w. split; [right; exact Hw | exact E].
+Qed.
+
+Theorem rename_keys_inv m s : Inv4 s -> renkeys_ok s m -> Inv4 (fst (ds_rename_keys m s)).
+Proof.
+  intros Hi [Ho [Hn Hcl]]. pose proof Hi as [[Hsh [Hus Hwf]] Hkeys]. pose proof (rename_keys_shared m s Hsh) as Hsh'.
+  unfold ds_rename_keys in *. destruct (negb _); [exact Hi|]. destruct (moved_vars m s) as [mv|] eqn:Em; [|exact Hi].
+  fold (moving m) in *. set (olds := map fst (moving m)) in *.
+  set (remaining := filter (fun w => negb (mem_str (vkey w) olds)) (dvars s)) in *.
+  assert (Hk : map vkey mv = map snd (moving m)) by (eapply moved_vars_keys; exact Em).
+  assert (Hfresh : forall w, In w mv -> ~ In (vkey w) (map vkey remaining)).
+  { intros w Hw Hin. apply in_map_iff in Hin. destruct Hin as [x [Ex Hx]]. apply filter_In in Hx. destruct Hx as [Hx1 Hx2].
+    assert (Hnew : In (vkey w) (map snd (moving m))) by (rewrite <- Hk; apply in_map; exact Hw).
+    assert (Hkey : In (vkey w) (ds_keys s)) by (unfold ds_keys; rewrite <- Ex; apply in_map; exact Hx1).
+    pose proof (Hcl _ Hnew Hkey) as Hold. apply negb_true_iff in Hx2.
+    assert (mem_str (vkey x) olds = true); [|congruence].
+    unfold mem_str. apply existsb_exists. exists (vkey x). split; [rewrite Ex; exact Hold | apply String.eqb_refl]. }
+  assert (Hfold : fold_left put_var mv remaining = remaining ++ mv).
+  { apply fold_put_fresh; [rewrite Hk; exact Hn | exact Hfresh]. }
+  simpl in *. rewrite Hfold in *.
+  split; [split; [exact Hsh' | split; [|exact Hwf]]|].
+  - intros id Hid. destruct (Hus id Hid) as [w [Hw Hidw]].
+    destruct (mem_str (vkey w) olds) eqn:Emem.
+    + assert (Hin : In (vkey w) olds).
+      { unfold mem_str in Emem. apply existsb_exists in Emem. destruct Emem as [x [Hx E]]. apply String.eqb_eq in E. subst x. exact Hx. }
+      assert (Hf : find_var s (vkey w) = Some w).
+      { unfold find_var. destruct (find (fun v => String.eqb (vkey v) (vkey w)) (dvars s)) as [v|] eqn:Ef.
+        - f_equal. symmetry. apply (find_var_unique s (vkey w) w v Hkeys Hw eq_refl). exact Ef.
+        - exfalso. pose proof (find_none _ _ Ef w Hw) as Hf0. cbv beta in Hf0. rewrite String.eqb_refl in Hf0. discriminate. }
+      destruct (moved_vars_has _ _ _ Em (vkey w) w Hin Hf) as [w' [Hw' E]].
+      exists w'. split; [apply in_or_app; right; exact Hw' | rewrite E; exact Hidw].
+    + exists w. split; [|exact Hidw]. apply in_or_app. left. apply filter_In. split; [exact Hw | rewrite Emem; reflexivity].
+  - unfold ds_keys. cbn [dvars]. rewrite map_app.
+    assert (G : forall (l1 l2 : list string), NoDup l1 -> NoDup l2 -> (forall k, In k l1 -> In k l2 -> False) -> NoDup (l1 ++ l2)).
+    { induction l1 as [|x t IH]; intros l2 H1 H2 Hd; simpl; [exact H2|]. inversion H1 as [|? ? Hx Ht]; subst. constructor.
+      - intros Hin. apply in_app_or in Hin. destruct Hin as [Hin|Hin]; [contradiction | apply (Hd x (or_introl eq_refl) Hin)].
+      - apply IH; [exact Ht | exact H2 | intros k Hk1 Hk2; apply (Hd k (or_intror Hk1) Hk2)]. }
+    apply G.
+    + apply NoDup_map_filter. exact Hkeys.
+    + rewrite Hk. exact Hn.
+    + intros k Hk1 Hk2. apply in_map_iff in Hk2. destruct Hk2 as [w [E Hw]]. apply (Hfresh w Hw). rewrite E. exact Hk1.
+Qed.
+
 Lemma init_fold_inv l : forall s (st : res unit), Inv4 s ->
   Inv4 (fst (fold_left (fun (acc : dset * res unit) (p : string * darr) => match snd acc with
                                                                         | Ok _ => ds_setitem (fst p) (snd p) (fst acc)
@@ -581,6 +692,7 @@ Definition op_ok (s : dset) (o : dsop) : Prop :=
                                        ~ In n (ds_dims s) \/ n = aname (hget (heap s) (nth i (vax v) 0))
   | DSetAxis r _ _ name => forall id n, ds_axis_ref s r = Ok id -> name = Some n -> ~ In n (ds_dims s) \/ n = aname (hget (heap s) id)
   | DRenameKey o n => n = o \/ ~ In n (ds_keys s)
+  | DRenameKeys m => renkeys_ok s m
   | DInit _ => True
   end.
 Fixpoint ops_ok (s : dset) (ops : list dsop) : Prop :=
@@ -599,6 +711,7 @@ Proof.
   - apply set_axis_inv; assumption.
   - apply replace_axis_inv; [exact Hi | apply Hok | apply Hok].
   - apply rename_key_inv; assumption.
+  - apply rename_keys_inv; assumption.
   - apply init_inv.
 Qed.
 
